@@ -833,7 +833,9 @@ def _uncovered_operations(seen_ops: set, kernel_rows: set):
              "Repeat": "repeat", "Roll": "roll", "Concatenate": "concatenate", "Stack": "stack", "Where": "where", "EinSum": "diag",
              "ReLu": "relu", "ApplyMask": "uout", "UnView": "setitem", "Absolute": "abs", "CumSum": "cumsum", "CumProd": "cumprod",
              "AddSequence": "addseq", "MultiplySequence": "mulseq", "ConvND": "conv", "MaxPoolND": "maxpool",
-             "MarginRanking": "margin_ranking", "MulticlassHinge": "multiclass_hinge"}
+             "MarginRanking": "margin_ranking", "MulticlassHinge": "multiclass_hinge", "Sigmoid": "sigmoid", "Softmax": "softmax",
+             "LogSoftmax": "logsoftmax", "SoftmaxCrossEntropy": "softmax_crossentropy", "ELU": "elu", "StdDev": "std",
+             "Norm": "norm", "BatchNorm": "batchnorm"}
     out = []
     for c in sorted(set(subclasses(Operation)), key=lambda k: k.__name__):
         if getattr(c, "__abstractmethods__", None):
@@ -934,10 +936,44 @@ def check_C02(tier: str, seed: int) -> int:
         if st:
             out.coverage["states"] += st["distinct"]
             out.coverage["transitions"] += st["generated"]
+        # interpretation points: exp / log / sqrt kernels where value or VJP is rational (Interp.tla)
+        from . import interp
+
+        ispec = os.path.join(tlc.SPEC, "tables", "Interp.tla")
+        icells = 0
+        ibad = 0
+        for g in ("exp", "sqrt"):
+            icfg = os.path.join(scratch, f"interp-{g}.cfg")
+            with open(icfg, "w") as f:
+                f.write(f'SPECIFICATION Spec\nCONSTANTS\n  Group = "{g}"\nINVARIANT SoftmaxSumsToOne\nINVARIANT Emit\nCHECK_DEADLOCK FALSE\n')
+            rc, o, wall = tlc.run_tlc(ispec, icfg, workers=1, timeout=900)
+            sti = tlc.parse_stats(o)
+            items, bad = replay.parse_behaviours(o)
+            if rc != 0 or sti is None or bad or len(items) != sti["distinct"]:
+                out.machinery(f"Interp.tla ({g}) failed rc={rc} bad={bad}: {o[-1200:]}")
+                continue
+            out.coverage["states"] += sti["distinct"]
+            out.coverage["transitions"] += sti["generated"]
+            for it in items:
+                icells += 1
+                out.judged += 1
+                seen_ops.add(it["cell"]["f"])
+                try:
+                    r = interp.run_cell(it)
+                except Exception as ex:  # noqa: BLE001
+                    r = ("exception", "none", f"{type(ex).__name__}: {str(ex)[:160]}")
+                if r is None:
+                    continue
+                ibad += 1
+                out.violation({"kind": "interp-table", "cell": it["cell"], "what": r[0], "expected": r[1], "observed": r[2]},
+                              f"interpretation-point table: {it['cell']['f']} {json.dumps({k: v for k, v in it['cell'].items() if k not in ('x', 'f')})}: "
+                              f"{r[0]}: exact {r[1]!r}, MyGrad {r[2]!r}")
+        out.coverage["interp_cells"] = icells
+        out.coverage["interp_cells_disagreeing"] = ibad
         out.coverage.update({"exhaustive": True, "optable_cells": total, "per_group": per, "kernel_rows": len(rows),
                              "kernel_rows_disagreeing": nk,
                              "traces_validated_against_impl": total + len(rows) + sum(
-                                 t["programs"] for t in out.coverage.get("trace_stages", [])),
+                                 t["programs"] for t in out.coverage.get("trace_stages", [])) + icells,
                              "operations_without_a_row": _uncovered_operations(seen_ops, krows)})
     except tlc.MachineryError as e:
         out.machinery(str(e)[:3000])
